@@ -179,7 +179,7 @@ func (t *Term) render() string {
 	case "deref":
 		return "*" + t.Args[0].String()
 	case "field":
-		return baseStr(t.Args[0]) + "." + t.Name
+		return baseStr(t.Args[0]) + "." + canonField(t.Name)
 	case "index":
 		return baseStr(t.Args[0]) + "[" + t.Args[1].String() + "]"
 	case "lookup":
@@ -247,8 +247,8 @@ func (t *Term) render() string {
 		if t.Cell.Sym && t.Cell.Val != nil {
 			base = "&" + t.Cell.Val.String()
 		}
-		if len(t.Path) > 0 {
-			base += "." + strings.Join(t.Path, ".")
+		for _, seg := range t.Path {
+			base += "." + canonField(seg)
 		}
 		return base
 	case "closure":
